@@ -100,21 +100,28 @@ func childMain(arg string) {
 		b := sb.block()
 		submitting = int(sb.H)
 		var oerr error
-		if sp.Path == "add" {
-			root, _ := common.Uint256FromHexString(sb.StateRoot)
-			oerr = lg.L.AddBlock(b, root)
-		} else {
-			_, oerr = lg.Commit(b)
-		}
+		pan := vio.Safe(func() {
+			if sp.Path == "add" {
+				root, _ := common.Uint256FromHexString(sb.StateRoot)
+				oerr = lg.L.AddBlock(b, root)
+			} else {
+				_, oerr = lg.Commit(b)
+			}
+		})
 		submitting = -1
 		pr := project(lg, sp.NCtr)
-		ev := childEvent{Ev: "offer", H: sb.H, OK: oerr == nil, Proj: &pr}
+		// accepted = no error and the ledger now stands at the offered height
+		ev := childEvent{Ev: "offer", H: sb.H, OK: oerr == nil && pan == "" && pr.BlockHeight == sb.H, Proj: &pr}
 		if oerr != nil {
 			ev.Err = oerr.Error()
+		} else if pan != "" {
+			ev.Err = pan
+		} else if !ev.OK {
+			ev.Err = "no error, but the block was not committed"
 		}
 		vio.Emit(ev)
 		vio.Flush()
-		if oerr != nil || lg.L.GetCurrentBlockHeight() != sb.H {
+		if !ev.OK {
 			break
 		}
 	}
